@@ -580,6 +580,96 @@ def prefix_shadow(first, later, ignorecase=True):
     return None
 
 
+def language_difference(rx1, rx2, ignorecase=False, limit=60):
+    """A string accepted by exactly one of the two patterns (shortest first), or None when the languages are equal.
+
+    Subset construction on the fly over the product of the two Thompson automata; the alphabet is printable ASCII plus
+    tab, newline, carriage return (ALPHABET), partitioned by the character sets occurring in the two automata."""
+    a, sa, ea = regex_nfa(rx1, ignorecase)
+    b, sb, eb = regex_nfa(rx2, ignorecase)
+    sets = {chars for nfa in (a, b) for trs in nfa.tr.values() for chars, _ in trs}
+    # one representative per behaviour class
+    classes = {}
+    for ch in sorted(ALPHABET):
+        sig = tuple(ch in cs for cs in sorted(sets, key=lambda x: sorted(x)))
+        classes.setdefault(sig, ch)
+    reps = sorted(classes.values())
+
+    def step(nfa, states, ch):
+        nxt = set()
+        for st in states:
+            for chars, t in nfa.tr.get(st, ()):
+                if ch in chars:
+                    nxt.add(t)
+        return nfa.closure(nxt)
+    start = (a.closure({sa}), b.closure({sb}))
+    seen = {start: ''}
+    work = [start]
+    while work:
+        st = work.pop(0)
+        xa, xb = st
+        w = seen[st]
+        if (ea in xa) != (eb in xb):
+            return w
+        if len(w) >= limit:
+            continue
+        for ch in reps:
+            nx = (step(a, xa, ch), step(b, xb, ch))
+            if not nx[0] and not nx[1]:
+                continue
+            if nx not in seen:
+                seen[nx] = w + ch
+                work.append(nx)
+    return None
+
+
+def rule_lexlang(P) -> RuleResult:
+    """Every lexical class of the grammar denotes exactly the language of its reference definition (tables/lexlang.json):
+    equivalence of the two finite automata, not sample strings."""
+    res = RuleResult('R-LEXLANG')
+    res.exhaustive = True
+    text, model, _ = _grammar(P.repo)
+    rules = _rules(model)
+    directives = dict(model.directives)
+    with open(os.path.join(VERIF, 'tables', 'lexlang.json'), encoding='utf-8') as f:
+        rows = json.load(f)
+    for row in rows:
+        name = row['rule']
+        if name.startswith('@@'):
+            rx = directives.get(name[2:])
+        else:
+            rx = _terminal_regex(rules, name)
+        if rx is None:
+            raise AnalysisError(f'lexical rule {name} not found or not terminal')
+        w = language_difference(rx, row['reference'], ignorecase=row.get('ignorecase', False))
+        if w is None:
+            res.ok({'rule': name, 'pattern': rx, 'equivalent_to': row['reference']})
+        else:
+            mine = accepts(rx, w, ignorecase=row.get('ignorecase', False))
+            res.fail(f'grammar:{name}', f'lexlang:{name}', f'{name} ({row["meaning"]}): the pattern /{rx}/ '
+                     f'{"accepts" if mine else "rejects"} {w!r}, which the definition /{row["reference"]}/ '
+                     f'{"rejects" if mine else "accepts"}')
+    # the generated parser carries the same comment patterns as the grammar (they are copied into two constructors)
+    pm = P.modules.get('beanquery.parser.parser')
+    if pm is not None:
+        for key in ('comments_re', 'eol_comments_re'):
+            vals = set()
+            for n in ast.walk(pm.tree):
+                if isinstance(n, ast.keyword) and n.arg == key and isinstance(n.value, ast.Constant):
+                    vals.add(n.value.value)
+            want = directives.get(key[:-3])
+            if not vals:
+                raise AnalysisError(f'generated parser: {key} not found')
+            for v in vals:
+                w = language_difference(v, want) if v is not None and want is not None else None
+                if w is not None or (v is None) != (want is None):
+                    res.fail(f'parser:{key}', f'lexlang:parser:{key}', f'the shipped parser skips {key[:-3]} by /{v}/, the grammar by /{want}/: '
+                             f'they differ on {w!r}')
+                else:
+                    res.ok({'parser': key, 'equals_grammar': True})
+    return res
+
+
 def _terminal_regex(rules, name):
     """Regex of a terminal rule (pattern, token or choice of tokens); None if not terminal."""
     G = _G()
